@@ -89,9 +89,15 @@ def crtHandlers : List (String × Handler) := [
         let Q := prodSpec ps
         let okQ := q == (Q : Int)
         let okMu := decide (0 ≤ s) && mu == ((2 ^ s.toNat / Q : Nat) : Int)
+        -- L_i = δ_ij (mod p_j): all pairs up to 64 moduli; above, the equivalent "L_i = 1 (mod p_i) and Π_{j≠i} p_j divides L_i"
+        -- (Q / p_i is that product; one big division per i instead of m small ones on an m-limb integer: the all-pairs form
+        -- costs m³ limb operations, an hour over the sweep of every table size up to 1000)
         let okL := ls.length == ps.length && ls.all (fun l => decide (0 ≤ l) && decide (l < (Q : Int))) &&
-          (List.range ps.length).all fun i => (List.range ps.length).all fun j =>
-            (ls.getD i 0) % ((ps.getD j 0 : Nat) : Int) == (if i = j then 1 else 0) % ((ps.getD j 0 : Nat) : Int)
+          (if ps.length ≤ 64 then
+            (List.range ps.length).all fun i => (List.range ps.length).all fun j =>
+              (ls.getD i 0) % ((ps.getD j 0 : Nat) : Int) == (if i = j then 1 else 0) % ((ps.getD j 0 : Nat) : Int)
+           else
+            (ps.zip ls).all fun (p, l) => l % ((p : Nat) : Int) == 1 % ((p : Nat) : Int) && l % (((Q / p : Nat)) : Int) == 0)
         pure (some (okQ && okMu && okL))
       | _ => pure (some false) }),
   -- lift w m r_0 … r_{m-1} => x        (one coefficient of poly2mpz)
